@@ -670,4 +670,121 @@ theorem tr_id (lp : Option (String × Nat)) : ∀ (e : Expr) (s : St), delayNode
     simp [tr, tr_id lp a s h.1, tr_id lp b s h.2]
   | .delay _ _ _, s, h => by simp [delayNodes] at h
 
+/-! ## Substituting simplification passes keep the verdict of the duration check -/
+
+/-- Names used with a subscript. -/
+def idxNames : Expr → List String
+  | .lit _ => []
+  | .time => []
+  | .ref _ => []
+  | .idx n i => n :: idxNames i
+  | .der _ => []
+  | .derAt _ i => idxNames i
+  | .neg e => idxNames e
+  | .bin _ a b => idxNames a ++ idxNames b
+  | .delay _ a d => idxNames a ++ idxNames d
+  | .dsym _ => []
+  | .dsymAt _ i => idxNames i
+
+/-- A substitution `σ` (with `gone` = its domain, removed from the variable lists) that a
+    simplification pass may perform without changing what the duration check sees: every
+    replacement mentions a disallowed symbol iff the replaced variable was disallowed, no state
+    is eliminated, and loop-local symbols are not involved. -/
+structure SubstOk (c : Cats) (lv : Option String) (σ : String → Option Expr) (gone : String → Bool) : Prop where
+  gone_iff : ∀ n, gone n = (σ n).isSome
+  keep : ∀ n e, σ n = some e → (atoms lv e).any (disallowed (c.remove gone)) = disallowed c (.var n)
+  noLoop : ∀ n e, σ n = some e → lv ≠ some n ∧ Atom.loopVar ∉ atoms lv e
+  noState : ∀ n, gone n = true → c.cat n ≠ some .state
+
+theorem disallowed_remove_var (c : Cats) (gone : String → Bool) (n : String) (h : gone n = false) :
+    disallowed (c.remove gone) (.var n) = disallowed c (.var n) := by
+  simp [disallowed, Cats.remove, h]
+
+theorem disallowed_remove_der (c : Cats) (gone : String → Bool) (n : String)
+    (h : gone n = true → c.cat n ≠ some .state) :
+    disallowed (c.remove gone) (.der n) = disallowed c (.der n) := by
+  cases hg : gone n with
+  | false => simp [disallowed, Cats.remove, hg]
+  | true =>
+    have := h hg
+    simp [disallowed, Cats.remove, hg, this]
+
+theorem subst_atoms {c : Cats} {lv : Option String} {σ : String → Option Expr} {gone : String → Bool}
+    (ok : SubstOk c lv σ gone) : ∀ (d : Expr), (∀ n ∈ idxNames d, gone n = false) →
+    (Atom.loopVar ∈ atoms lv (substRef σ d) ↔ Atom.loopVar ∈ atoms lv d) ∧
+    (atoms lv (substRef σ d)).any (disallowed (c.remove gone)) = (atoms lv d).any (disallowed c)
+  | .lit _, _ => by simp [substRef, atoms]
+  | .time, _ => by simp [substRef, atoms, disallowed]
+  | .dsym _, _ => by simp [substRef, atoms, disallowed]
+  | .der n, _ => by
+    simp only [substRef, atoms, List.any_cons, List.any_nil, Bool.or_false, true_and]
+    exact disallowed_remove_der c gone n (ok.noState n)
+  | .ref n, _ => by
+    cases hs : σ n with
+    | none =>
+      have hg : gone n = false := by rw [ok.gone_iff, hs]; rfl
+      simp only [substRef, hs, Option.getD_none, true_and]
+      by_cases hl : lv = some n
+      · simp [atoms, hl, disallowed]
+      · simp [atoms, hl, disallowed_remove_var c gone n hg]
+    | some e =>
+      obtain ⟨h1, h2⟩ := ok.noLoop n e hs
+      simp only [substRef, hs, Option.getD_some]
+      refine ⟨?_, ?_⟩
+      · simp [atoms, h1, h2]
+      · rw [ok.keep n e hs]; simp [atoms, h1]
+  | .idx n i, h => by
+    have hn : gone n = false := h n (by simp [idxNames])
+    obtain ⟨i1, i2⟩ := subst_atoms ok i (fun m hm => h m (by simp [idxNames, hm]))
+    simp only [substRef, atoms]
+    by_cases hl : Atom.loopVar ∈ atoms lv i
+    · have hl' := i1.mpr hl
+      simp [hl, hl', disallowed]
+    · have hl' : Atom.loopVar ∉ atoms lv (substRef σ i) := fun hh => hl (i1.mp hh)
+      simp [hl, hl', i2, disallowed_remove_var c gone n hn]
+  | .derAt n i, h => by
+    obtain ⟨i1, i2⟩ := subst_atoms ok i (fun m hm => h m (by simpa [idxNames] using hm))
+    simp only [substRef, atoms]
+    by_cases hl : Atom.loopVar ∈ atoms lv i
+    · have hl' := i1.mpr hl
+      simp [hl, hl', disallowed]
+    · have hl' : Atom.loopVar ∉ atoms lv (substRef σ i) := fun hh => hl (i1.mp hh)
+      simp [hl, hl', i2, disallowed_remove_der c gone n (ok.noState n)]
+  | .dsymAt k i, h => by
+    obtain ⟨i1, i2⟩ := subst_atoms ok i (fun m hm => h m (by simpa [idxNames] using hm))
+    simp only [substRef, atoms]
+    by_cases hl : Atom.loopVar ∈ atoms lv i
+    · have hl' := i1.mpr hl
+      simp [hl, hl', disallowed]
+    · have hl' : Atom.loopVar ∉ atoms lv (substRef σ i) := fun hh => hl (i1.mp hh)
+      simp [hl, hl', i2, disallowed]
+  | .neg e, h => by simpa [substRef, atoms, idxNames] using subst_atoms ok e (by simpa [idxNames] using h)
+  | .bin _ a b, h => by
+    obtain ⟨a1, a2⟩ := subst_atoms ok a (fun m hm => h m (by simp [idxNames, hm]))
+    obtain ⟨b1, b2⟩ := subst_atoms ok b (fun m hm => h m (by simp [idxNames, hm]))
+    simp [substRef, atoms, a1, b1, a2, b2]
+  | .delay _ a d, h => by
+    obtain ⟨a1, a2⟩ := subst_atoms ok a (fun m hm => h m (by simp [idxNames, hm]))
+    obtain ⟨d1, d2⟩ := subst_atoms ok d (fun m hm => h m (by simp [idxNames, hm]))
+    simp [substRef, atoms, a1, d1, a2, d2]
+
+/-! ## The cache state machine -/
+
+theorem transferCalls_agree (compile : CallResult) : ∀ (n : Nat) (f : Bool), (f = true → compile = .returned) →
+    ∀ r ∈ transferCalls compile n f, r = compile
+  | 0, _, _ => by simp [transferCalls]
+  | n + 1, f, hf => by
+    intro r hr
+    simp only [transferCalls, List.mem_cons] at hr
+    have hinv : (transferCall compile f).2 = true → compile = .returned := by
+      cases f with
+      | true => intro _; exact hf rfl
+      | false => cases compile <;> simp [transferCall]
+    rcases hr with hr | hr
+    · rw [hr]
+      cases f with
+      | true => simp [transferCall, hf rfl]
+      | false => cases compile <;> simp [transferCall]
+    · exact transferCalls_agree compile n _ hinv r hr
+
 end PymocaVerif.Delay
